@@ -603,7 +603,7 @@ func genDocCase(rng *fw.Rng, idx int64) *docCase {
 
 func init() {
 	fw.Register(&fw.Prop{
-		ID: "C16", Cases: tierN(30000, 1500000),
+		ID: "C16", Cases: tierN(120000, 2500000),
 		Run: func(c *fw.Ctx) {
 			dc := genDocCase(c.Rng, c.Idx)
 			if dc == nil {
